@@ -301,6 +301,11 @@ def run_instance(inst, tier="quick", scratch="/var/tmp", small=False, mutant=Non
         if rc in (124, 137):
             raise Machinery("cbmc timeout after %ds" % tmo)
         results, msgs = parse_cbmc_json(out)
+        del out
+        if want_trace is None:
+            # cbmc embeds a full trace for every FAILED property (the canary always fails): megabytes per run that nothing reads
+            for r_ in (results or []):
+                r_.pop("trace", None)
         if results is None:
             raise Machinery("cbmc gave no result list (rc=%d): %s" % (rc, _tail("\n".join(msgs) or out)))
         for m in msgs:
